@@ -262,3 +262,116 @@ Example c12_report_nonvacuous :
   (* ref/ with only an empty transcript: 0 tokens, not "unavailable" *)
   cli_info true None e = (e, inr (mkReport 1 4 (Some 2) (-1) (-1) 0 [] [])).
 Proof. cbv zeta. repeat split; reflexivity. Qed.
+
+(* ============================================================================================================
+   SOURCE TIE (notes/C12_tie_report.md).  PV.Gen.C12Src.* are the MiniPy terms harness/py2coq/translate.py regenerates
+   from /repo/src/pydrobert/torch/_datasets.py on every run; PV.MiniPy.Interp is their semantics; the torch calls
+   mean what PV.MiniTorch.OpsC12 says (through C12.SrcRun.ext12).  Hypotheses: [ref_shape_ok] (a stored reference is
+   a tensor: rows of its width, "other" = not 1-/2-D) and [sym_ok] (sos/eos fit the reference's dtype - the limit
+   Model.v documents: new_full overflow is not modelled). *)
+From PV Require C12.SrcRun C12.TieLoad C12.TieHyp C12.Tie.
+From PV Require MiniPy.Interp MiniTorch.OpsC12 Gen.C12Src.
+
+(* `_load_ref`, whole body: for every stored reference (1-D, (R,3), (R,w), 0-/3-D; empty ones included), tokens_only
+   both ways, sos/eos set or None: the interpreted source returns the model's tensor or raises the model's exception *)
+Theorem c12_source_load_ref_is_model : forall c r, TieLoad.ref_shape_ok r ->
+  TieLoad.sym_ok (r_dtype r) (c_sos c) -> TieLoad.sym_ok (r_dtype r) (c_eos c) ->
+  match load_ref c r with
+  | inl e => exists st, SrcRun.run_load_ref c (SrcRun.tens_of_ref r) = Interp.Exc (SrcRun.name_of_exn e) st
+  | inr r' => exists st, SrcRun.run_load_ref c (SrcRun.tens_of_ref r) = Interp.Ok (SrcRun.enc12 (SrcRun.tens_of_ref r')) st
+  end.
+Proof. exact Tie.source_load_ref_is_model. Qed.
+Print Assumptions c12_source_load_ref_is_model.
+
+(* the executable form the harness evaluates on the run's cases *)
+Theorem c12_source_src_load_ref_is_model : forall c r, TieLoad.ref_shape_ok r ->
+  TieLoad.sym_ok (r_dtype r) (c_sos c) -> TieLoad.sym_ok (r_dtype r) (c_eos c) ->
+  SrcRun.src_load_ref c (SrcRun.tens_of_ref r)
+  = Some (match load_ref c r with inl e => inl e | inr r' => inr (SrcRun.tens_of_ref r') end).
+Proof. exact Tie.source_src_load_ref_is_model. Qed.
+Print Assumptions c12_source_src_load_ref_is_model.
+
+(* composed with c12_sos_eos_wrap_*: statements purely about the interpreted source *)
+Theorem c12_source_load_ref_wraps_1d : forall c cu dt t, c_tokens_only c = false ->
+  TieLoad.sym_ok dt (c_sos c) -> TieLoad.sym_ok dt (c_eos c) ->
+  exists st, SrcRun.run_load_ref c (OpsC12.T1 cu dt t)
+             = Interp.Ok (SrcRun.enc12 (OpsC12.T1 cu dt (wrap (c_sos c) (c_eos c) t))) st.
+Proof. exact Tie.source_load_ref_wraps_1d. Qed.
+Print Assumptions c12_source_load_ref_wraps_1d.
+
+Theorem c12_source_load_ref_wraps_2d : forall c cu dt rows, c_tokens_only c = false -> dt <> DU8 ->
+  TieLoad.sym_ok dt (c_sos c) -> TieLoad.sym_ok dt (c_eos c) ->
+  exists st, SrcRun.run_load_ref c (OpsC12.T2 cu dt 3 (map SrcRun.row3 rows))
+             = Interp.Ok (SrcRun.enc12 (OpsC12.T2 cu dt 3
+                 (map SrcRun.row3 (wrap (option_map sym_of (c_sos c)) (option_map sym_of (c_eos c)) rows)))) st.
+Proof. exact Tie.source_load_ref_wraps_2d. Qed.
+Print Assumptions c12_source_load_ref_wraps_2d.
+
+Theorem c12_source_load_ref_wraps_tokens_only : forall c cu dt rows, c_tokens_only c = true ->
+  TieLoad.sym_ok dt (c_sos c) -> TieLoad.sym_ok dt (c_eos c) ->
+  exists st, SrcRun.run_load_ref c (OpsC12.T2 cu dt 3 (map SrcRun.row3 rows))
+             = Interp.Ok (SrcRun.enc12 (OpsC12.T1 cu dt (wrap (c_sos c) (c_eos c) (map tok_of rows)))) st.
+Proof. exact Tie.source_load_ref_wraps_tokens_only. Qed.
+Print Assumptions c12_source_load_ref_wraps_tokens_only.
+
+(* `_write_hyp`, whole body: for every 1-D / (R,3) hypothesis on any device, of any dtype, sos/eos set or None, the
+   run returns None and its ONE effect is torch.save(<the model's stripped hypothesis, a CPU long tensor>, pth) *)
+Theorem c12_source_write_hyp_is_model : forall sos eos cu dt h,
+  (match h with R1 _ | R2 _ => True | _ => False end) ->
+  exists st, SrcRun.run_write_hyp sos eos (SrcRun.tens_of_rdata cu dt h) = Interp.Ok MiniPy.Syntax.VNone st
+             /\ Interp.events st = TieHyp.saved (SrcRun.tens_of_rdata false DI64 (write_hyp sos eos h)).
+Proof. exact Tie.source_write_hyp_is_model. Qed.
+Print Assumptions c12_source_write_hyp_is_model.
+
+Theorem c12_source_src_write_hyp_is_model : forall sos eos cu dt h,
+  (match h with R1 _ | R2 _ => True | _ => False end) ->
+  SrcRun.src_write_hyp sos eos (SrcRun.tens_of_rdata cu dt h)
+  = Some (SrcRun.tens_of_rdata false DI64 (write_hyp sos eos h)).
+Proof. exact Tie.source_src_write_hyp_is_model. Qed.
+Print Assumptions c12_source_src_write_hyp_is_model.
+
+(* composed with c12_write_hyp_strips *)
+Theorem c12_source_write_hyp_strips : forall sos eos cu dt (l : list Z),
+  exists st stored,
+    SrcRun.run_write_hyp sos eos (OpsC12.T1 cu dt l) = Interp.Ok MiniPy.Syntax.VNone st
+    /\ Interp.events st = TieHyp.saved (OpsC12.T1 false DI64 stored)
+    /\ (exists pre post, l = pre ++ stored ++ post)
+    /\ (forall s, sos = Some s -> Forall (fun x => x <> s) stored)
+    /\ (forall e, eos = Some e -> Forall (fun x => x <> e) stored).
+Proof. exact Tie.source_write_hyp_strips. Qed.
+Print Assumptions c12_source_write_hyp_strips.
+
+(* composed with c12_strip_wrap_roundtrip_*: what the interpreted `_load_ref` returns, handed to the interpreted
+   `_write_hyp`, is stored as the bare transcript *)
+Theorem c12_source_roundtrip_1d : forall c cu dt t, c_tokens_only c = false ->
+  TieLoad.sym_ok dt (c_sos c) -> TieLoad.sym_ok dt (c_eos c) ->
+  free_of (c_sos c) t -> free_of (c_eos c) t ->
+  (forall s e, c_sos c = Some s -> c_eos c = Some e -> s <> e) ->
+  exists loaded st1 st2,
+    SrcRun.run_load_ref c (OpsC12.T1 cu dt t) = Interp.Ok (SrcRun.enc12 loaded) st1
+    /\ SrcRun.run_write_hyp (c_sos c) (c_eos c) loaded = Interp.Ok MiniPy.Syntax.VNone st2
+    /\ Interp.events st2 = TieHyp.saved (OpsC12.T1 false DI64 t).
+Proof. exact Tie.source_roundtrip_1d. Qed.
+Print Assumptions c12_source_roundtrip_1d.
+
+Theorem c12_source_roundtrip_2d : forall c cu dt rows, c_tokens_only c = false -> dt <> DU8 ->
+  TieLoad.sym_ok dt (c_sos c) -> TieLoad.sym_ok dt (c_eos c) ->
+  free_of (c_sos c) (map tok_of rows) -> free_of (c_eos c) (map tok_of rows) ->
+  (forall s e, c_sos c = Some s -> c_eos c = Some e -> s <> e) ->
+  exists loaded st1 st2,
+    SrcRun.run_load_ref c (OpsC12.T2 cu dt 3 (map SrcRun.row3 rows)) = Interp.Ok (SrcRun.enc12 loaded) st1
+    /\ SrcRun.run_write_hyp (c_sos c) (c_eos c) loaded = Interp.Ok MiniPy.Syntax.VNone st2
+    /\ Interp.events st2 = TieHyp.saved (OpsC12.T2 false DI64 3 (map SrcRun.row3 rows)).
+Proof. exact Tie.source_roundtrip_2d. Qed.
+Print Assumptions c12_source_roundtrip_2d.
+
+(* non-vacuity: the interpreted sources run (vm_compute) on a reference with segments, sos = 7, eos = 8 *)
+Example c12_source_nonvacuous :
+  let c := mkCfg (Some 7) (Some 8) false false in
+  SrcRun.src_load_ref c (SrcRun.tens_of_ref (mkRef false DI64 (R2 [(1, 0, 2); (2, 2, 5)])))
+  = Some (inr (SrcRun.tens_of_ref (mkRef false DI64 (R2 [(7, -1, -1); (1, 0, 2); (2, 2, 5); (8, -1, -1)]))))
+  /\ SrcRun.src_write_hyp (Some 7) (Some 8) (SrcRun.tens_of_rdata true DI32 (R2 [(7, -1, -1); (1, 0, 2); (2, 2, 5); (8, -1, -1)]))
+     = Some (SrcRun.tens_of_rdata false DI64 (R2 [(1, 0, 2); (2, 2, 5)]))
+  /\ SrcRun.src_load_ref (mkCfg (Some 7) None false false) (SrcRun.tens_of_ref (mkRef false DI64 (R2w 0 [[]; []])))
+     = Some (inl IndexErr).
+Proof. vm_compute. repeat split; reflexivity. Qed.
